@@ -85,3 +85,68 @@ def normalize(t):
 
 def align8(v):
     return (v + 7) // 8 * 8
+
+
+# ---- concurrent cases ------------------------------------------------------------------------------
+# case: kind 'conc'; pre/post = sequential ops; limits = consumer read limits; progs = [[ [typ, len, k], ..], ..];
+#       sched = [tid..] (0 = consumer, i+1 = producer i); stops = [k or -1 per thread]
+
+def conc_line(c):
+    def ops(l):
+        return ','.join(op_token(o) for o in l)
+    parts = ['conc', str(c['cap']), str(c['p0']), str(c['hc0']), str(c['c0']), 'pre=' + ops(c['pre']),
+             'cons=' + ','.join(str(x) for x in c['limits'])]
+    for p in c['progs']:
+        parts.append('prod=' + ','.join('w:%d:%d:%d' % (w[0], w[1], w[2]) for w in p))
+    parts.append('sched=' + ','.join('%d*%d' % (t, n) for t, n in c['sched']))
+    parts.append('stops=' + ','.join('-' if s < 0 else str(s) for s in c['stops']))
+    parts.append('post=' + ops(c['post']))
+    return ' '.join(parts)
+
+
+def conc_args(c):
+    progs = '[' + '; '.join('[' + '; '.join('(%s, payload %s %s)' % (z(w[0]), z(w[2]), z(w[1])) for w in p) + ']' for p in c['progs']) + ']'
+    return '%s %s %s %s (unrle %s) %s %s' % (
+        seq_init(c), ops_coq(c['pre']), '[' + '; '.join(z(x) for x in c['limits']) + ']', progs,
+        '[' + '; '.join('(%d, %d)' % (t, n) for t, n in c['sched']) + ']', '[' + '; '.join(z(s) for s in c['stops']) + ']', ops_coq(c['post']))
+
+
+def progs_coq(c):
+    return '[' + '; '.join('[' + '; '.join('(%s, payload %s %s)' % (z(w[0]), z(w[2]), z(w[1])) for w in p) + ']' for p in c['progs']) + ']'
+
+
+def conc_model(c, mode):
+    return 'run_conc %s %s' % (mode_c(mode), conc_args(c))
+
+
+def fresh_types(rng, n):
+    return rng.sample(CMDS, n)
+
+
+def rle(sched):
+    """explicit list of thread ids -> [[tid, count], ..]"""
+    out = []
+    for t in sched:
+        if out and out[-1][0] == t:
+            out[-1][1] += 1
+        else:
+            out.append([t, 1])
+    return out
+
+
+def one_preemption_schedules(nthreads, max_steps=40, every=1):
+    """all schedules (run-length encoded) with at most one pre-emption: an order of the threads, and
+    optionally one thread interrupted after j steps by another thread that then runs to completion"""
+    BIG = 400
+    out = []
+    for order in itertools.permutations(range(nthreads)):
+        out.append([[t, BIG] for t in order])
+    for a in range(nthreads):
+        for b in range(nthreads):
+            if a == b:
+                continue
+            for j in range(1, max_steps, every):
+                rest = [t for t in range(nthreads) if t not in (a, b)]
+                for order in itertools.permutations(rest):
+                    out.append([[a, j], [b, BIG], [a, BIG]] + [[t, BIG] for t in order])
+    return out
